@@ -89,6 +89,7 @@ class Layout:
         self.run_is_ram = False
         self.ram_emission = False  # bytes were emitted while *= pointed into RAM
         self.pre = []             # preconditions (stay inside the mapped run)
+        self.positions = []       # every *= / @= operand met: (address term, kind)
 
     def start(self, S, A):
         self.S, self.A = S, A
@@ -100,6 +101,7 @@ class Layout:
         self.cur = None
 
     def star(self, p, kind):
+        self.positions.append((p, kind))
         self._flush()
         if kind == "rom":
             self.S = offset(self.g, p)
@@ -110,6 +112,7 @@ class Layout:
         self.run_is_ram = kind == "ram"
 
     def at(self, r, kind):
+        self.positions.append((r, kind))
         self.A = r
         self.run_is_ram = kind == "ram"
 
